@@ -26,11 +26,11 @@ var cmdAlike = map[string]string{"s": "\u017f", "\u017f": "s", "\u03bb\u03bf\u03
 var spot string
 
 var spotlights = map[string][]string{
-	"C01": {"swap-recheck", "other-invoker", "sibling-P", "inv-as-proof", "lookalike", "long-chain", "prov-dlg", "hook-twice"},
+	"C01": {"swap-recheck", "other-invoker", "sibling-P", "inv-as-proof", "lookalike", "long-chain", "prov-dlg", "hook-twice", "rootless-after"},
 	"C02": {"self-K", "sibling-K", "alike", "deep", "top-under-one", "long-chain", "reserved", "repeat-cmd", "rawcmd"},
-	"C03": {"uslice", "nullopt", "alias", "twin", "sibling-Q", "hook-null", "optional-and", "starstr", "same-selector"},
+	"C03": {"uslice", "nullopt", "alias", "twin", "sibling-Q", "hook-null", "optional-and", "starstr", "same-selector", "second-args"},
 	"C04": {"far-nbf", "sibling-W", "both-bounds", "unbounded-then-bad", "shared-option"},
-	"C05": {"far-exp", "uslice", "prov-inv", "prov-dlg", "hook-twice", "long-chain", "reuse", "starstr", "repeat-cmd", "overlap-args"},
+	"C05": {"far-exp", "uslice", "prov-inv", "prov-dlg", "hook-twice", "long-chain", "reuse", "starstr", "repeat-cmd", "overlap-args", "churn", "second-args"},
 	"C07": {"far-exp", "uslice", "nullopt"},
 	"C09": {"inv-as-proof", "long-chain", "deep"},
 	"":    {"swap-recheck", "other-invoker", "self-K", "sibling-K", "uslice", "nullopt", "alias", "twin", "far-nbf", "far-exp", "inv-as-proof", "sibling-W"},
@@ -265,11 +265,11 @@ func genArgs(r *Rand) []KV {
 		}
 		out = append(out, KV{"g", vStr(string(b))})
 	}
-	if spotWant(r, "uslice", 0.25) {
+	if spotWant(r, "uslice", 0.25) || spot == "second-args" {
 		// a string with characters of 1, 2, 3 and 4 UTF-8 bytes (slices count characters)
 		alphabet := []rune("ab\u00e9\u00fc\u65e5\u672c\U0001d11ez.")
 		n := r.Range(0, 9)
-		if spot == "uslice" {
+		if spot == "uslice" || spot == "second-args" {
 			n = r.Range(4, 9)
 			alphabet = alphabet[2:7] // multi-byte characters only
 		}
@@ -448,9 +448,9 @@ func genStmt0(r *Rand, a []KV, want bool, depth int, top bool) Stmt {
 		return Stmt{Op: Pick(r, []string{"==", "<", ">="}), Sel: Pick(r, []string{".zz", ".m.zz", ".zz.y"}), Val: ptr(vInt(int64(r.Range(0, 5))))}
 	}
 	kv := a[r.Intn(len(a))]
-	if top && (spot == "uslice" || spot == "nullopt" || spot == "starstr") {
+	if top && (spot == "uslice" || spot == "nullopt" || spot == "starstr" || spot == "second-args") {
 		for _, x := range a {
-			if (spot == "uslice" && x.Key == "u") || (spot == "nullopt" && x.Key == "m") || (spot == "starstr" && x.Key == "g") {
+			if ((spot == "uslice" || spot == "second-args") && x.Key == "u") || (spot == "nullopt" && x.Key == "m") || (spot == "starstr" && x.Key == "g") {
 				kv = x
 			}
 		}
@@ -487,7 +487,7 @@ func genStmt0(r *Rand, a []KV, want bool, depth int, top bool) Stmt {
 		return Pick(r, []Stmt{{Op: "==", Sel: sel, Val: ptr(vFloat(f + 1))}, {Op: ">", Sel: sel, Val: ptr(vFloat(f))}, {Op: "<=", Sel: sel, Val: ptr(vFloat(f - 0.25))},
 			{Op: "==", Sel: sel, Val: ptr(vInt(int64(f)))}})
 	case "str":
-		if nr := len([]rune(v.S)); r.Chance(0.45) || (kv.Key == "u" && spotWant(r, "uslice", 0.6)) {
+		if nr := len([]rune(v.S)); r.Chance(0.45) || (kv.Key == "u" && (spotWant(r, "uslice", 0.6) || spot == "second-args")) {
 			// a slice of the string, by characters: prefix, suffix (negative start), window,
 			// bounds beyond the end (clamped)
 			a, b := r.Range(0, nr), r.Range(0, nr)
@@ -918,6 +918,11 @@ func genWorld(r *Rand, cfg GenCfg) Plan {
 			nLinks = 1 + r.Intn(4)
 		}
 	}
+	if spot == "rootless-after" {
+		// the top of a size class of small buffers (4, 8, 16, 32), so that the chain without its
+		// root is one shorter in the same class
+		nLinks = []int{4, 8, 4, 16, 3, 32, 5}[r.Intn(7)]
+	}
 	if spotWant(r, "long-chain", 0.03) {
 		// beyond any small fixed capacity
 		nLinks = []int{9, 12, 16, 17, 33, 65}[r.Intn(6)]
@@ -942,7 +947,7 @@ func genWorld(r *Rand, cfg GenCfg) Plan {
 	}
 	forced := ""
 	switch spot {
-	case "swap-recheck", "other-invoker", "sibling-P", "sibling-K", "sibling-Q", "sibling-W", "prov-dlg", "prov-inv", "hook-twice", "far-exp", "reuse":
+	case "swap-recheck", "other-invoker", "sibling-P", "sibling-K", "sibling-Q", "sibling-W", "prov-dlg", "prov-inv", "hook-twice", "far-exp", "reuse", "rootless-after", "second-args", "churn":
 		conform = true
 	case "self-K", "alike", "top-under-one", "reserved", "rawcmd":
 		conform, forced = false, "K"
@@ -1305,6 +1310,67 @@ func genWorld(r *Rand, cfg GenCfg) Plan {
 		g.emit(WStep{Op: "check", Check: &CheckSpec{Inv: inv2.Label}})
 		g.emit(WStep{Op: "check", Check: &CheckSpec{Inv: c.inv.Label}})
 		g.note("sibling:other-invoker")
+	}
+
+	// --- a long-running process: the chain is validated, hundreds of unrelated selectors,
+	// policies, commands, identifiers and tokens pass through the library, everything is
+	// delivered (decoded) afresh and validated again
+	if spotWant(r, "churn", 0.04) {
+		g.emit(WStep{Op: "ship", Ship: g.shipSpec(append(append([]string{}, dl...), il...), false)})
+		g.emit(WStep{Op: "check", Check: &CheckSpec{Inv: c.inv.Label}})
+		g.emit(WStep{Op: "churn", N: Pick(r, []int{300, 600, 1100})})
+		g.emit(WStep{Op: "check", Check: &CheckSpec{Inv: c.inv.Label}})
+		g.emit(WStep{Op: "ship", Ship: g.shipSpec(append(append([]string{}, dl...), il...), false)})
+		g.emit(WStep{Op: "check", Check: &CheckSpec{Inv: c.inv.Label}})
+		g.note("churn")
+	}
+
+	// --- the chain that was just allowed, then the SAME proofs without the root (a chain one
+	// shorter whose last delegation is not issued by the subject), then the full chain again: what
+	// one validation leaves behind does not serve the next
+	if conform && len(c.dlgs) >= 2 && len(c.inv.Prf) == len(c.dlgs) && spotWant(r, "rootless-after", 0.15) {
+		inv2 := c.inv
+		inv2.Label = g.newInvLabel()
+		inv2.Prf = append([]string{}, c.inv.Prf[:len(c.inv.Prf)-1]...)
+		g.issueInv(inv2)
+		g.emit(WStep{Op: "ship", Ship: g.shipSpec(append(append([]string{}, dl...), append(append([]string{}, il...), inv2.Label)...), false)})
+		g.emit(WStep{Op: "check", Check: &CheckSpec{Inv: c.inv.Label}})
+		g.emit(WStep{Op: "check", Check: &CheckSpec{Inv: inv2.Label}})
+		g.emit(WStep{Op: "check", Check: &CheckSpec{Inv: c.inv.Label}})
+		g.note("sibling:rootless-after")
+	}
+
+	// --- the same delegation objects serve a SECOND invocation whose arguments are longer (every
+	// string gets a tail, every list further elements): statements over open-ended slices and
+	// quantifiers see the whole of the new value; then the first invocation again
+	if conform && len(c.dlgs) >= 1 && spotWant(r, "second-args", 0.15) {
+		inv2 := c.inv
+		inv2.Label = g.newInvLabel()
+		inv2.Args = nil
+		for _, kv := range c.inv.Args {
+			v := kv.V
+			switch v.K {
+			case "str":
+				v = vStr(v.S + Pick(r, []string{"zz", "\u00e9x", "*", "/etc"}))
+			case "list":
+				l := append([]Val{}, v.L...)
+				if len(l) > 0 && l[0].K == "map" {
+					l = append(l, vMap(KV{"x", vInt(1 << 40)}), vMap(KV{"y", vStr("tail")}))
+				} else {
+					l = append(l, vInt(1<<40), vInt(-(1 << 40)))
+				}
+				v = Val{K: "list", L: l}
+			}
+			inv2.Args = append(inv2.Args, KV{kv.Key, v})
+		}
+		g.issueInv(inv2)
+		g.emit(WStep{Op: "ship", Ship: g.shipSpec(append(append([]string{}, dl...), append(append([]string{}, il...), inv2.Label)...), false)})
+		for _, prov := range []string{"", "dlg-built"} {
+			g.emit(WStep{Op: "check", Check: &CheckSpec{Inv: c.inv.Label, Prov: prov}})
+			g.emit(WStep{Op: "check", Check: &CheckSpec{Inv: inv2.Label, Prov: prov}})
+			g.emit(WStep{Op: "check", Check: &CheckSpec{Inv: c.inv.Label, Prov: prov}})
+		}
+		g.note("sibling:second-args")
 	}
 
 	// --- the attenuation-by-append plan (see deviateQ): full chain, chain ending at the parent, full
